@@ -13,7 +13,7 @@
 (*  apalache-mc check --cinit=ConstInit --inv=IndInv --length=0            *)
 (*  apalache-mc check --cinit=ConstInit --init=IndInit --inv=IndInv --length=1 *)
 (***************************************************************************)
-EXTENDS Integers
+EXTENDS Integers, WriterIntOps
 CONSTANTS
   \* @type: Int;
   Cap,
@@ -31,10 +31,8 @@ VARIABLES
 ConstInit == Cap \in Nat /\ TLen \in Nat
 Init == written = 0 /\ blen = 0 /\ autoflush = FALSE /\ underflow = FALSE
 \* BufWriter::write of a piece of n bytes: new buffer length, and whether BufWriter had to flush on its own
-BwBlen(b, n) == IF n < Cap - b THEN b + n
-                ELSE IF n >= Cap THEN (IF n > Cap - b THEN 0 ELSE b)
-                ELSE (IF n > Cap - b THEN n ELSE b + n)
-BwAuto(b, n) == ~(n < Cap - b) /\ n > Cap - b /\ b > 0
+BwBlen(b, n) == BwBlenC(Cap, b, n)
+BwAuto(b, n) == BwAutoC(Cap, b, n)
 \* io.rs:75-113
 Emit(len, flushOk) ==
   LET req == len + TLen
@@ -46,8 +44,9 @@ Emit(len, flushOk) ==
               b0 == IF left < req THEN 0 ELSE blen
               b1 == BwBlen(b0, len)
               b2 == BwBlen(b1, TLen) IN
-          /\ written' = w0 + len + TLen
-          /\ blen' = b2
+          /\ written' = EmitNextC(Cap, TLen, written, blen, len, flushOk)[1]
+          /\ blen' = EmitNextC(Cap, TLen, written, blen, len, flushOk)[2]
+          /\ b2 = blen'
           /\ autoflush' = (autoflush \/ BwAuto(b0, len) \/ BwAuto(b1, TLen))
 \* io.rs:115-120
 Flush(ok) == /\ IF ok THEN written' = 0 /\ blen' = 0 ELSE UNCHANGED <<written, blen>>
